@@ -188,6 +188,16 @@ M = [
  ('C16', 'RadicalDecrease on unmapped index', RW+'ReactionQuery.py',
   "        atom = comb_mol.GetAtomWithIdx(mapped_index[self.idx])\n        atom.SetNumRadicalElectrons(atom.GetNumRadicalElectrons()-1)",
   "        atom = comb_mol.GetAtomWithIdx(self.idx)\n        atom.SetNumRadicalElectrons(max(atom.GetNumRadicalElectrons()-1, 0))"),
+ ('C16', 'ChargeIncrease applied as decrease', RW+'ReactionQuery.py',
+  "        atom.SetFormalCharge(atom.GetFormalCharge()+1)", "        atom.SetFormalCharge(atom.GetFormalCharge()-1)"),
+ ('C16', 'ChargeDecrease on unmapped index', RW+'ReactionQuery.py',
+  "        atom = comb_mol.GetAtomWithIdx(mapped_index[self.idx])\n        atom.SetFormalCharge(atom.GetFormalCharge()-1)",
+  "        atom = comb_mol.GetAtomWithIdx(self.idx)\n        atom.SetFormalCharge(atom.GetFormalCharge()-1)"),
+ ('C11', 'array element loses its units', U+'qty.py',
+  "            return Quantity(result, self._units)", "            return result"),
+ ('C11', 'ArrayQuantity ctor ignores element units', U+'qty.py',
+  "                if(use_units and datum_units and use_units != datum_units\n                        and value != 0 and not units):",
+  "                if(False and use_units and datum_units and use_units != datum_units\n                        and value != 0 and not units):"),
  ('C17', 'duplicate test compares atom counts only', RW+'GenRxnNet.py',
   "                        if mol1.GetNumAtoms() == mol2.GetNumAtoms() and \\\n                            mol1.GetNumAtoms() == len(mol1.GetSubstructMatch\n                                                      (mol2)):",
   "                        if mol1.GetNumAtoms() == mol2.GetNumAtoms() and \\\n                            mol1.GetNumHeavyAtoms() == mol2.GetNumHeavyAtoms():"),
